@@ -2,6 +2,7 @@
 # run_all.sh [quick|thorough]  -- every registered check once, with wall time and exit code
 cd "$(dirname "$0")/.."
 tier=${1:-quick}
+mkdir -p out
 for id in C01 C02 C03 C04 C05 C06 C07 C08 C09 C10 C11 C12 C13 C14 C15 C16 C17 C18 C19 C20; do
   t0=$(date +%s)
   ./check $id --tier $tier > out/run_$id.log 2>&1
